@@ -37,6 +37,16 @@
 using namespace votca;
 using namespace votca::xtp;
 
+// QMCalculator's two out-of-line members live in qmcalculator.cc, which needs libint2 (not
+// available here).  Neither is under test; these stand-ins only satisfy the linker (Initialize
+// is the key function that anchors QMCalculator's vtable).
+namespace votca {
+namespace xtp {
+void QMCalculator::Initialize(const tools::Property& opt) { ParseOptions(opt); }
+bool QMCalculator::EvaluateFrame(Topology& top) { return Evaluate(top); }
+}  // namespace xtp
+}  // namespace votca
+
 namespace {
 
 // the real Promotetime / ChooseHoppingDest are protected members of the abstract
